@@ -218,10 +218,16 @@ def _verify_request(sig, spec, td, path, fresh, allow_mismatch_error=False, alt=
     require(ok, f"{sig}:wrong-data", f"request returned {len(got)} mazes that are not the fresh generation ({len(fresh)} mazes); first difference at index "
             f"{next((i for i, (x, y) in enumerate(zip(got, fresh)) if x != y), min(len(got), len(fresh)))}")
     require(os.path.exists(path), f"{sig}:no-file-left", "no cache file after the request")
-    try:
-        back = MazeDataset.read(path)
-    except Exception as e:  # noqa: BLE001
-        raise Violation(f"{sig}:file-left-unloadable:{type(e).__name__}", str(e)[:300]) from e
+    # "a loadable file": loadable by anyone - it is read back from a copy under another name in another directory, so that nothing this
+    # process remembers about the path (or about having just produced the data) can stand in for the bytes on disk
+    with core.TempDir() as td_copy:
+        elsewhere = os.path.join(td_copy, "copy-of-cache-file.zanj")
+        with open(path, "rb") as fi, open(elsewhere, "wb") as fo:
+            fo.write(fi.read())
+        try:
+            back = MazeDataset.read(elsewhere)
+        except Exception as e:  # noqa: BLE001
+            raise Violation(f"{sig}:file-left-unloadable:{type(e).__name__}", str(e)[:300]) from e
     require(isinstance(back, MazeDataset), f"{sig}:file-left-unloadable:{type(back).__name__}", f"reading the file left behind gave {type(back).__name__}, not a dataset")
     require(_fp(back) == got, f"{sig}:file-left-wrong-data", "the file left behind holds other mazes than the request returned")
     _cfg_matches(f"{sig}:file-left-config-differs", spec, back.cfg)
@@ -330,6 +336,14 @@ def check(case: dict):
             return {"nt": True, "labels": labels}
         else:
             raise ValueError(kind)
+        if fault.get("warm"):
+            # the file had been in use - written by a request and loaded by another one in this very process - before it got damaged
+            with open(path, "wb") as f:
+                f.write(intact)
+            _verify_request(sig + ":before-the-damage", spec, td, path, fresh)
+            labels.append("used-before-the-damage")
+            if damaged is None:
+                os.remove(path)
         if damaged is not None:
             with open(path, "wb") as f:
                 f.write(damaged)
@@ -439,16 +453,21 @@ def _enumerated(keys, trunc_stride, corrupt_stride, modes, all_structure=True, n
             if shard == 0:
                 for kind in ("missing", "empty", "intact"):
                     yield {"cfg": key, "fault": {"kind": kind}}
+                    yield {"cfg": key, "fault": {"kind": kind, "warm": True}}
             ts = trunc_stride.get(key, trunc_stride.get("*", 16))
             for k in range(L_):
                 if k % nshards == shard and (k % ts == 0 or k < 128 or k >= L_ - 128):
                     yield {"cfg": key, "fault": {"kind": "truncate", "at": k}}
+                    if (k // nshards) % 11 == 0:
+                        yield {"cfg": key, "fault": {"kind": "truncate", "at": k, "warm": True}}
             cs = corrupt_stride.get(key, corrupt_stride.get("*", 23))
             struct = _structure_set(intact) if all_structure else frozenset()
             for mode in modes:
                 for k in range(L_):
                     if k % nshards == shard and (k % cs == 0 or k in struct):
                         yield {"cfg": key, "fault": {"kind": "corrupt", "at": k, "mode": mode}}
+                        if (k // nshards) % 7 == 0:
+                            yield {"cfg": key, "fault": {"kind": "corrupt", "at": k, "mode": mode, "warm": True}}
             for k in range(len(ops) + 1):
                 if k % nshards != shard:
                     continue
